@@ -26,6 +26,7 @@ type StreamingState struct {
 	inputTokens      int
 	outputTokens     int
 	messageStartSent bool
+	sawStreamData    bool // at least one "data:" line carried a JSON object or the [DONE] marker
 }
 
 // convert openai sse stream to anthropic format
@@ -49,6 +50,16 @@ func (t *Translator) TransformStreamingResponse(ctx context.Context, openaiStrea
 
 	if streamErr != nil {
 		return streamErr
+	}
+
+	// A 200 answer that held nothing resembling an OpenAI stream (an HTML page, a bare JSON
+	// value, plain text) is a backend failure, not an empty completion: say so while nothing has
+	// been sent yet. A stream that is merely empty ([DONE] only) still becomes an empty message.
+	if !state.messageStartSent && !state.sawStreamData {
+		w.Header().Del("Cache-Control")
+		w.Header().Del("Connection")
+		t.WriteError(w, fmt.Errorf("backend response contained no completion stream"), http.StatusBadGateway)
+		return nil
 	}
 
 	// send message_start even if stream was empty
@@ -107,11 +118,14 @@ func (t *Translator) processStreamLine(line string, state *StreamingState, w htt
 
 	data := strings.TrimPrefix(line, "data: ")
 	if strings.TrimSpace(data) == "[DONE]" {
+		state.sawStreamData = true
 		return nil
 	}
 
 	var chunk map[string]interface{}
-	if err := json.Unmarshal([]byte(data), &chunk); err != nil {
+	if err := json.Unmarshal([]byte(data), &chunk); err == nil {
+		state.sawStreamData = true
+	} else {
 		// log bad chunks but keep going, partial responses better than nothing
 		t.logger.Warn("Malformed chunk encountered, skipping", "error", err,
 			"data", util.TruncateString(data, util.DefaultTruncateLengthPII), "data_len", len(data))
